@@ -593,6 +593,10 @@ class Normalizer:
         for n in _local_walk(d.node):
             if isinstance(n, (ast.Global,)):
                 return False
+        # a helper that calls itself cannot be expanded (the copy would contain the call again)
+        for n in ast.walk(d.node):
+            if isinstance(n, ast.Call) and ((isinstance(n.func, ast.Name) and n.func.id == d.name) or (isinstance(n.func, ast.Attribute) and n.func.attr == d.name)):
+                return False
         return not d.busy
 
     def _bind(self, d: _Def, call: ast.Call, via_self: bool):
